@@ -77,5 +77,6 @@ LayoutsFF4 == {<<a, b>> : a \in {{2, 3}, {2, 3, 4}}, b \in SUBSET {2, 3}}
 LO_model == {<<>>, <<2>>, <<4>>, <<2, 4>>}
 LO_enum3 == {<<>>, <<2>>, <<3>>, <<4>>, <<2, 2>>, <<2, 4>>, <<4, 2>>}
 LO_enum4 == {<<>>, <<2>>, <<4>>}
+LO_big24 == {<<>>, <<3>>, <<4>>}
 LO_enum4t == {<<>>, <<2>>, <<4>>, <<2, 4>>}
 =============================================================================
